@@ -157,6 +157,14 @@ func (i *interpreter) regexpMatch(pat, s value) value {
 			return tuple{m, nilErr()}
 		}
 	}
+	if ps, ok := pat.(string); ok {
+		// concrete pattern, symbolic subject: NFA simulation over terms
+		if t, ok := i.regexpNFA(ps, strBytes(s)); ok {
+			return tuple{norm(types.Typ[types.Bool], t), nilErr()}
+		}
+		_, err := regexp.Compile(ps)
+		return tuple{false, i.mkError(err.Error())}
+	}
 	pb := strBytes(pat)
 	pre, suf := false, false
 	if len(pb) > 0 {
